@@ -325,7 +325,14 @@ def wd_conds(e, acc, guard):
     elif t == 'rpow':
         wd_conds(e[1], acc, guard)
         wd_conds(e[2], acc, guard)
-        acc.append((guard, 'pos', e[1]))
+        ex = e[2]
+        # a literal non-negative exponent tolerates a zero base (0**1.5 = 0); otherwise the base must be
+        # positive (a negative base gives a complex/NaN result, a zero base with a negative exponent raises)
+        if (ex[0] in ('lit', 'nat') and ex[1] >= 0) or (ex[0] == 'bin' and ex[1] == '/' and ex[2][0] in ('lit', 'nat')
+                                                      and ex[3][0] in ('lit', 'nat') and ex[2][1] >= 0 and ex[3][1] > 0):
+            acc.append((guard, 'nonneg', e[1]))
+        else:
+            acc.append((guard, 'pos', e[1]))
     elif t == 'fn':
         for a in e[2]:
             wd_conds(a, acc, guard)
@@ -349,3 +356,43 @@ def wd_conds(e, acc, guard):
         wd_conds(e[1], acc, guard)
     elif t == 'vmap':
         pass   # vector bodies: handled per element by the caller (not used for C20 scalars)
+
+
+def lean_wd(name, params, lets, rets):
+    """`<name>_WD` : Prop — every denominator non-zero, every log argument positive, every sqrt argument
+    non-negative, every real-power base positive (non-negative for a literal non-negative exponent), on the
+    execution path that evaluates it (guards = branch conditions).  Scalar routines only."""
+    if any(k != 's' for _p, k in params) or any(k != 's' for (_s, k, _e, _g) in lets):
+        return None
+    acc = []
+    for (ssa, k, ex, g) in lets:
+        wd_conds(ex, acc, list(g))
+    for (e, k) in rets:
+        wd_conds(e, acc, [])
+    ps = ' '.join('(%s : α)' % p for p, _k in params)
+    out = ['def %s_WD {α : Type} [Num α] %s : Prop :=' % (name, ps)]
+    for (ssa, k, ex, _g) in lets:
+        out.append('  let %s : α := %s' % (ssa, lean_expr(ex)))
+    conj = []
+    seen = set()
+    for guard, kind, e in acc:
+        if kind == 'ne0':
+            c = '(%s ≠ 0)' % lean_expr(e)
+        elif kind == 'pos':
+            c = '(0 < %s)' % lean_expr(e)
+        elif kind == 'nonneg':
+            c = '(0 ≤ %s)' % lean_expr(e)
+        elif kind == 'wd':
+            c = '(%s_WD %s)' % (e[1], ' '.join(lean_expr(a) for a in e[2]))
+        else:
+            raise Untranslatable('wd kind ' + kind)
+        # literal divisors / bases need no obligation
+        if e[0] in ('lit', 'nat') and e[1] > 0 and kind in ('ne0', 'pos', 'nonneg'):
+            continue
+        for gc in reversed(guard):
+            c = '(%s → %s)' % (lean_cond(gc), c)
+        if c not in seen:
+            seen.add(c)
+            conj.append(c)
+    out.append('  ' + ' ∧\n  '.join(conj + ['True']))
+    return '\n'.join(out)
